@@ -120,6 +120,9 @@ class Calendar:
         self.ROUGH_DAYS_IN_YEAR = self.DAYS_IN_YEAR
         self.DAYS_IN_YEAR_LEAP = sum(self.DAYS_IN_MONTHS_LEAP)
         self.MAX_DAYS_IN_MONTH = max(self.DAYS_IN_MONTHS)
+        # Most weeks a week-date year of this calendar can have (53, but 52
+        # in a 360 day calendar); used for truncated dates.
+        self.MAX_WEEKS_IN_YEAR = -(-self.DAYS_IN_YEAR_LEAP // self.DAYS_IN_WEEK)
         self.HOURS_IN_YEAR = self.DAYS_IN_YEAR * self.HOURS_IN_DAY
         self.MINUTES_IN_YEAR = self.DAYS_IN_YEAR * self.MINUTES_IN_DAY
         self.SECONDS_IN_YEAR = self.DAYS_IN_YEAR * self.SECONDS_IN_DAY
